@@ -71,7 +71,7 @@ pub fn make_grid(kind: &str, n: usize, l: f64) -> Grid {
         "polar" => Grid::Polar(Axis::new_polar(n, len)),
         "cartesian2" => Grid::Cartesian2(Axis::new_cartesian(n, len, None), Axis::new_cartesian(n / 2, len * 0.7, None)),
         "periodical2" => Grid::Periodical2(Axis::new_cartesian(n, len, None), Axis::new_cartesian(n, len, None), 60.0 * DEGREES),
-        "cylindrical" => Grid::Cylindrical { r: Axis::new_polar(n, len), z: Axis::new_cartesian(n / 2, len * 0.7, None) },
+        "cylindrical" => Grid::Cylindrical { r: Axis::new_polar(n, len), z: Axis::new_cartesian((n / 2).min(32), len * 0.7, None) },
         "cartesian3" => Grid::Cartesian3(Axis::new_cartesian(n, len, None), Axis::new_cartesian(n, len, None), Axis::new_cartesian(n / 2, len * 0.7, None)),
         "periodical3" => Grid::Periodical3(Axis::new_cartesian(n, len, None), Axis::new_cartesian(n, len, None), Axis::new_cartesian(n, len, None), [90.0 * DEGREES, 90.0 * DEGREES, 60.0 * DEGREES]),
         _ => panic!("unknown grid {kind}"),
